@@ -42,6 +42,7 @@ type opT struct {
 	DocRef   int      `json:"doc_ref"` // call: use (and keep) the document OBJECT of slot doc_ref instead of building a fresh one (0 = fresh)
 	Rename   []string `json:"rename"`  // call with doc_ref: before the call, rename this member of the kept root object in place (hex from, hex to)
 	AllFail  bool     `json:"allfail"` // parse/retrieve without cfg_ref: register every name of filters/aggs with a function that always fails
+	Burn     int      `json:"burn"`    // parse/retrieve: before the call, Parse the path `$` this many times (tens of thousands of unrelated calls in between)
 }
 
 type caseT struct {
@@ -101,6 +102,8 @@ func main() {
 		coldHistChild()
 	case "coldchild":
 		coldChild()
+	case "deepchild":
+		deepChild()
 	case "oracle":
 		oracle()
 	case "kinds":
